@@ -1,0 +1,10 @@
+//go:build verif
+
+// Contracts for contract-based deductive verification (checked by /verif/govc).
+// This file is comment-only and compiled only with the build tag "verif".
+
+package resmgr
+
+// ---- C14: key splitting never indexes or slices a key out of range ---------------------------------------------
+// (joint keys ":<ksep><vsep>k1<ksep>k2…": the three leading bytes are only inspected for keys of length >= 4)
+//@ func splitKeys safety
